@@ -284,11 +284,44 @@ func (r *rewriter) instrumentAccesses() {
 			e, name = x, tn+"."+fld.Name()
 		case *ast.Ident:
 			v, ok := r.info.Uses[x].(*types.Var)
-			if !ok || v.IsField() || v.Pkg() == nil || v.Pkg().Path() != r.pkg.PkgPath || v.Parent() != v.Pkg().Scope() {
+			if !ok || v.IsField() || v.Pkg() == nil || v.Pkg().Path() != r.pkg.PkgPath {
 				return true
 			}
 			if !leafType(v.Type()) {
 				return true
+			}
+			if v.Parent() != v.Pkg().Scope() {
+				// a local variable: tracked only where a function literal uses a
+				// variable declared outside of it (state captured by a closure
+				// that may run in several goroutines, e.g. a scratch buffer hoisted
+				// out of a compiled expression stage)
+				captured := false
+				for i := len(stack) - 2; i >= 0; i-- {
+					if fl, ok := stack[i].(*ast.FuncLit); ok {
+						if v.Pos() < fl.Pos() || v.Pos() > fl.End() {
+							captured = true
+						}
+						break
+					}
+				}
+				if !captured {
+					return true
+				}
+				// the Sel of a selector is not a use of the variable
+				if len(stack) >= 2 {
+					if p, ok := stack[len(stack)-2].(*ast.SelectorExpr); ok && p.Sel == x {
+						return true
+					}
+				}
+				fn := "func"
+				for i := len(stack) - 1; i >= 0; i-- {
+					if fd, ok := stack[i].(*ast.FuncDecl); ok {
+						fn = fd.Name.Name
+						break
+					}
+				}
+				e, name = x, fn+".closure."+v.Name()
+				break
 			}
 			// the Sel of a selector or a key in a composite literal is not a use of the variable
 			if len(stack) >= 2 {
@@ -326,6 +359,34 @@ func (r *rewriter) instrumentAccesses() {
 				if _, isIdent := e.(*ast.Ident); isIdent {
 					return true
 				}
+			}
+		case *ast.SliceExpr:
+			// buf[:0] re-uses the backing array: what follows writes into memory
+			// every holder of the slice shares, so it counts as a write of buf
+			if p.X == e && p.Low == nil && p.High != nil {
+				if bl, ok := p.High.(*ast.BasicLit); ok && bl.Value == "0" {
+					write = true
+				}
+			}
+		case *ast.IndexExpr:
+			// buf[i] = v on a slice (an element write through the shared header)
+			if p.X == e && len(stack) >= 3 {
+				if _, isSlice := r.info.TypeOf(e).Underlying().(*types.Slice); isSlice {
+					switch gp := stack[len(stack)-3].(type) {
+					case *ast.AssignStmt:
+						for _, l := range gp.Lhs {
+							if l == ast.Expr(p) {
+								write = true
+							}
+						}
+					case *ast.IncDecStmt:
+						write = gp.X == ast.Expr(p)
+					}
+				}
+			}
+		case *ast.CallExpr:
+			if isBuiltin(r.info, p.Fun, "copy") && len(p.Args) > 0 && p.Args[0] == e {
+				write = true
 			}
 		}
 		marks[e] = repl{write, name}
